@@ -690,8 +690,11 @@ def check_reductions(ctx, rep):
                     gs = G.guards_at(ga, bi)
                     hit = any(g.op == "True" and g.a.kind == "call" and re.search(r"Filtered( for [A-Za-z:]+)?>::filter$", g.a.v) for g in gs if g.a is not None)
                     it = any(g.a is not None and g.a.kind == "discr" and g.a.args and ".rows" in repr(g.a.args[0]) and "rev" not in repr(g.a.args[0]) for g in gs)
-                    if hit and it and len(pushes) == 1:
+                    extra = [g for g in gs if g.a is not None and not (g.a.kind == "call" and re.search(r"Filtered( for [A-Za-z:]+)?>::filter$", g.a.v)) and not (g.a.kind == "discr" and g.a.args and ".rows" in repr(g.a.args[0])) and "Try>::branch" not in repr(g.a)]
+                    if hit and it and len(pushes) == 1 and not extra:
                         oka = True
+                    elif hit and it and extra:
+                        why = "a matching row is pushed only under a further condition (%s): some rows for which the filter holds are left out" % ", ".join(sorted({repr(g.a)[:60] for g in extra}))
         if oka:
             rep.ok("T-REDUCE", "grid:filter-all", ga.where(), "every row for which the filter holds, in iteration order")
         else:
@@ -1145,3 +1148,45 @@ def check_parens_display(ctx, rep):
     else:
         rep.bad("T-SKELETON", "T-SKELETON:parens-display", b.where(), "Parens::fmt can print its inner expression without %s: the printed text parses to a tree without the group" % ("the opening bracket" if not ok1 else "the closing bracket"))
     return 1
+
+
+def check_list_and_presence_semantics(ctx, rep):
+    """(a) a comparison against a list-valued tag holds if some *element* stands in the relation - unless the literal is itself a
+    list, in which case the two lists are compared as values: in cmp_dispatch the element-wise `any` is taken only under
+    `!rhs.is_list()`. (b) `tag` holds exactly when the path resolves to something other than Null: Value::has_value is `!is_null()`
+    and nothing else (NA, Remove, an empty string are values)"""
+    prog = ctx.prog
+    n = 0
+    cd = next((b for b in prog.bodies.values() if strip_generics(b.id).endswith("filter::nodes::cmp_dispatch") and b.rec["kind"] != "Closure"), None)
+    if cd is None:
+        rep.gap("cmp_dispatch", "-", "not found")
+    else:
+        n += 1
+        anys = [(bi, t) for bi, t in cd.calls() if strip_generics(mir.callee_name(t) or "").endswith(("Iterator>::any", "Iterator::any"))]
+        good = bool(anys)
+        for bi, t in anys:
+            gs = G.guards_at(cd, bi)
+            if not any(g.op == "False" and g.a is not None and g.a.kind == "call" and strip_generics(g.a.v).endswith("Value::is_list") and g.a.args and re.fullmatch(r"_3\**", repr(g.a.args[0])) for g in gs):
+                good = False
+        if good:
+            rep.ok("T-REDUCE", "cmp:list-literal-compared-whole", cd.where(), "element-wise comparison only when the literal is not a list")
+        else:
+            rep.bad("T-REDUCE", "T-REDUCE:cmp:list-literal-compared-whole", cd.where(), "cmp_dispatch compares element by element even when the literal is itself a list: `x == [1,2]` no longer holds for x = [1,2]")
+    hv = prog.get("haystack::val::value::Value::has_value")
+    if hv is None:
+        rep.gap("Value::has_value", "-", "not found")
+    else:
+        n += 1
+        rv = G.describe_place(hv, {"l": 0, "p": []})
+        calls = [strip_generics(mir.callee_name(t) or "") for _bi, t in hv.calls()]
+        if rv.kind == "unop" and rv.v == "Not" and rv.args and rv.args[0].kind == "call" and strip_generics(rv.args[0].v).endswith("Value::is_null") and calls == ["haystack::val::value::Value::is_null"]:
+            rep.ok("T-REDUCE", "has:has_value-is-not-null", hv.where(), "has_value() = !is_null()")
+        else:
+            from rules import kinds as _K
+            vv = {d: nm for nm, d in _K.variants(prog, _K.VAL)}
+            r = _K.positive_variants(hv, vv)
+            if r is not None and r[0] == set(vv.values()) - {"Null"} and not _K.conditional_positive_arms(hv, vv):
+                rep.ok("T-REDUCE", "has:has_value-is-not-null", hv.where(), "has_value() is true for every variant but Null")
+            else:
+                rep.bad("T-REDUCE", "T-REDUCE:has:has_value-is-not-null", hv.where(), "Value::has_value is not `!is_null()` (it is %s, calling %s): `tag` and `not tag` can both be false for a present value" % (repr(rv)[:100], [c.split("::")[-1] for c in calls]))
+    return n
